@@ -146,6 +146,40 @@ CHECKS['C20'] = ('model_checking', 'explore',
     'reference matcher vt/refs/robotsref.py on wildcard-free files where first-match and '
     'longest-match agree.', '5/C20')
 
+CHECKS['C02'] = ('exploration', 'enum',
+    'bounded-exhaustive enumeration of option subsets x URLs x link records through the real '
+    'option parser, filter construction and FetchRule against independent scope rules; '
+    'end-to-end crawls against the reference crawler',
+    'Each of 15 scope option groups (plus second parameterisations) alone on the full product of '
+    '192 URLs x 2400 link records, every pair of groups on a reduced product, and in thorough all '
+    '2^15 option subsets on a covering set: a filter (or the conjunction, or consult_filters with '
+    'is_redirect) that lets a URL pass which the reference rule rejects is a violation; the '
+    'redirect waiver must apply only when span-hosts is the sole failure. Seven end-to-end crawls '
+    'offer out-of-scope links via pages, requisites and all five redirect codes.',
+    'vt/refs/scope.py is the specification; over-restrictive verdicts are counted, not flagged '
+    '(nothing is requested); robots.txt exception covered by C20.', '5/C02')
+CHECKS['C16'] = ('exploration', 'enum',
+    'bounded-exhaustive enumeration of redirect chains, Location spellings and start URLs through '
+    'the unmodified application; oracle on raw request bytes',
+    'All redirect chains of length <=2 (3 thorough) over 5 codes x 4 next-host kinds from a start '
+    'URL with credentials, cookies on/off, 11 Location spellings x 5 codes, 22 start URLs (user-'
+    'info, IDN, IPv6, ports, encoded CR/LF): each request must be one well-formed request line '
+    'whose target is the hop URL\'s normalised path?query, exactly one Host equal to the hop\'s '
+    'host[:port], sent to that server, no bare CR/LF, no credentials/cookies of another host, no '
+    'https Referer on http.',
+    'expected target/Host derived from wpull\'s URL normaliser (C10 covers normalisation); no '
+    'TLS, no proxy mode.', '5/C16')
+CHECKS['C18'] = ('model_checking', 'explore',
+    'explicit-state search over adversarial server strategies against the unmodified application',
+    'For --max-redirect 0-2 (3 thorough) x --tries 1-2 (3), the server answer at each of the first '
+    'D requests is chosen from an 11-entry menu (redirect to same/fresh/previous URL over all codes, '
+    'missing/unparsable Location, 401, 500, 200, connection closed); branching is pruned by a '
+    'per-visit state key; plus "always X" runs at the default limits. Oracle: redirect follow-ups '
+    'per visit <= limit, no two authentication retries in a row, visits per URL <= tries, '
+    'termination with every row final.',
+    'visits delimited by URL-table check-outs observed from the harness; pruning key argued in '
+    'DESIGN.md.', '5/C18')
+
 NOT_YET = {}
 
 
